@@ -90,19 +90,23 @@ def canary_text(built):
             k += 1
         if k >= len(toks):
             continue
-        depth = 0
+        # the body is the brace group that closes the item (a `match` in an ensures clause also opens a brace)
+        last = len(toks) - 1
+        while last >= 0 and toks[last].s != "}":
+            last -= 1
+        e = None
         while k < len(toks):
             t = toks[k].s
-            if t in ("(", "["):
-                depth += 1
-            elif t in (")", "]"):
-                depth -= 1
-            elif t == "{" and depth == 0:
-                break
+            if t in ("(", "[", "{"):
+                c = rtok.match_close(toks, k)
+                if t == "{" and c == last:
+                    e = c
+                    break
+                k = c + 1
+                continue
             k += 1
-        if k >= len(toks):
+        if e is None:
             continue
-        e = rtok.match_close(toks, k)
         a_, b_ = toks[k].b, toks[e].a
         seg2 = seg[:a_] + " let r__ = {" + seg[a_:b_] + "}; proof { assert(false); } r__ " + seg[b_:]
         lines[l0 - 1:l1] = seg2.split("\n")
